@@ -6,6 +6,7 @@ import re
 from typing import List
 
 from ..core import AnalysisError, FunctionInfo, Project, dotted, is_const, kwarg, norm, param_names, walk_no_nested
+from .. import sym
 from ..util import assignments, returns_of, stmt_text
 
 MS = "formulaic.model_spec.ModelSpec"
@@ -27,57 +28,88 @@ def _prop(P: Project, name: str) -> FunctionInfo:
     return P.method(MS, name, inherited=False)
 
 
+def _skel(ctx, rule, fi, what, key, alternatives):
+    from ..expect import contains_any
+    ctx.look()
+    ok, why = contains_any(ctx.project, fi, alternatives if isinstance(alternatives, (list, tuple)) else [alternatives])
+    ctx.check(ok, rule, what, fi.where, ctx.construct(fi, text=key), why)
+    return ok
+
+
 def r1(ctx):
     P = ctx.project
-    ti = _prop(P, "term_indices")
-    fn = ti.node
-    loops = [n for n in walk_no_nested(fn) if isinstance(n, ast.For)]
-    ctx.look(4)
-    if len(loops) != 1:
-        raise AnalysisError("C10.R1: accumulate loop of term_indices not found")
-    lp = loops[0]
-    row = lp.target.id if isinstance(lp.target, ast.Name) else "?"
-    body = [norm(s) for s in lp.body]
-    init = [norm(v) for n, v, st in assignments(fn) if n == "start" and st not in lp.body and not any(st is x for x in ast.walk(lp))]
-    ok_iter = norm(lp.iter) in ("self.__structure",)
-    cols = rf"(?:{row}\[2\]|{row}\.columns)"
-    ok_end = any(re.fullmatch(rf"end = start \+ len\({cols}\)", b) for b in body)
-    ok_rng = any(re.fullmatch(rf"(\w+)\[(?:{row}\[0\]|{row}\.term)\] = list\(range\(start, end\)\)", b) for b in body)
-    ok_adv = body and body[-1] == "start = end"
-    ok_init = "0" in init
-    ctx.check(ok_iter and ok_end and ok_rng and ok_adv and ok_init, "C10.R1",
-              "term_indices: contiguous, disjoint ranges in term order (start=0; end=start+len(columns); range(start,end); start=end)", ti.where,
-              ctx.construct(ti, text="accumulate"), f"loop over `{norm(lp.iter)}` with body {body}, start initialised to {init}")
-    cn = _prop(P, "column_names")
-    r = returns_of(cn.node)
-    t = norm(r[0].value) if r else ""
-    ok = re.fullmatch(r"tuple\(\((\w+) for (\w+) in self\.__structure for \1 in (?:\2\.columns|\2\[2\])\)\)", t) is not None
-    ctx.check(ok, "C10.R1", "column_names concatenates the same rows' columns in the same order", cn.where, ctx.construct(cn, text="column_names"), f"returns `{t}`")
-    ci = _prop(P, "column_indices")
-    r = returns_of(ci.node)
-    t = norm(r[0].value) if r else ""
-    ok = re.fullmatch(r"\{(\w+): (\w+) for \(?\2, \1\)? in enumerate\(self\.column_names\)\}", t) is not None
-    ctx.check(ok, "C10.R1", "column_indices enumerates column_names", ci.where, ctx.construct(ci, text="column_indices"), f"returns `{t}`")
-    ts = _prop(P, "term_slices")
-    r = returns_of(ts.node)
-    t = norm(r[0].value) if r else ""
-    ok = re.fullmatch(r"\{(\w+): slice\((\w+)\[0\], \2\[-1\] \+ 1\) if \2 else slice\(0, 0\) for \(?\1, \2\)? in self\.term_indices\.items\(\)\}", t) is not None
-    ctx.check(ok, "C10.R1", "term_slices is [first, last+1) of term_indices, or the empty slice", ts.where, ctx.construct(ts, text="term_slices"), f"returns `{t}`")
-    st = P.method(MS, "__structure", inherited=False) if "__structure" in P.cls(MS).methods else None
+    ROWS = ("row[2]", "row.columns")
+    TERMS = ("row[0]", "row.term")
+    _skel(ctx, "C10.R1", _prop(P, "term_indices"),
+          "term_indices: contiguous, disjoint ranges in term order (start=0; end=start+len(columns); range(start,end); start=end)", "accumulate",
+          [f"""
+        def term_indices(self):
+            slices = {{}}
+            start = 0
+            for row in self.__structure:
+                end = start + len({c})
+                slices[{t}] = list(range(start, end))
+                start = end
+            return slices
+    """ for c in ROWS for t in TERMS])
+    _skel(ctx, "C10.R1", _prop(P, "column_names"), "column_names concatenates the same rows' columns in the same order", "column_names",
+          [f"def column_names(self):\n    return tuple(feature for row in self.__structure for feature in {c})" for c in ROWS] +
+          [f"def column_names(self):\n    return tuple(itertools.chain.from_iterable({c} for row in self.__structure))" for c in ROWS] +
+          [f"def column_names(self):\n    return tuple(itertools.chain(*({c} for row in self.__structure)))" for c in ROWS])
+    _skel(ctx, "C10.R1", _prop(P, "column_indices"), "column_indices enumerates column_names", "column_indices",
+          ["def column_indices(self):\n    return {name: i for i, name in enumerate(self.column_names)}",
+           "def column_indices(self):\n    return dict(zip(self.column_names, range(len(self.column_names))))"])
+    _skel(ctx, "C10.R1", _prop(P, "term_slices"), "term_slices is [first, last+1) of term_indices, or the empty slice", "term_slices",
+          "def term_slices(self):\n    return {k: slice(v[0], v[-1] + 1) if v else slice(0, 0) for k, v in self.term_indices.items()}")
     gci = P.method(MS, "get_column_indices", inherited=False)
-    t = norm(gci.node)
-    ctx.check("return [self.column_indices[column] for column in columns]" in t, "C10.R1", "get_column_indices looks each name up in column_indices", gci.where,
-              ctx.construct(gci, text="lookup"), "get_column_indices changed shape")
+    cp = param_names(gci.node)[1]
+    try:
+        outs = sym.outcomes(gci.node)
+    except sym.Unmodelled:
+        outs = []
+    one = sym.eval_under(outs, {f"isinstance({cp}, str)": True}, kinds=("return",))
+    many = sym.eval_under(outs, {f"isinstance({cp}, str)": False}, kinds=("return",))
+    ok = len(one) == 1 and len(many) == 1 and sym.pm(f"[self.column_indices[VAR_c] for VAR_c in [{cp}]]", one[0][1]) is not None \
+        and sym.pm(f"[self.column_indices[VAR_c] for VAR_c in {cp}]", many[0][1]) is not None
+    ctx.check(ok, "C10.R1", "get_column_indices looks each name up in column_indices", gci.where,
+              ctx.construct(gci, text="lookup"), f"returns {[norm(v)[:90] for _k, v, _e in one + many]}")
     gs = P.method(MS, "get_slice", inherited=False)
-    t = norm(gs.node)
-    ok = "return slice(columns_identifier, columns_identifier + 1)" in t and "return term_slices[columns_identifier]" in t and "return slice(idx, idx + 1)" in t \
-        and t.index("term_slices[columns_identifier]") < t.index("column_indices[columns_identifier]")
+    ci = param_names(gs.node)[1]
+    try:
+        go = sym.outcomes(gs.node)
+    except sym.Unmodelled as e:
+        raise AnalysisError(f"C10.R1: get_slice cannot be summarised: {e}")
+    F = {f"isinstance({ci}, slice)": False}
+    as_int = sym.eval_under(go, dict(F, **{f"isinstance({ci}, int)": True}), kinds=("return",))
+    NI = dict(F, **{f"isinstance({ci}, int)": False})
+    as_term = sym.eval_under(go, dict(NI, **{f"isinstance({ci}, Term)": True, f"{ci} in self.term_slices": True}), kinds=("return", "raise"))
+    term_missing = sym.eval_under(go, dict(NI, **{f"isinstance({ci}, Term)": True, f"{ci} in self.term_slices": False}), kinds=("return", "raise"))
+    as_tname = sym.eval_under(go, dict(NI, **{f"isinstance({ci}, Term)": False, f"{ci} in self.term_slices": True}), kinds=("return", "raise"))
+    as_col = sym.eval_under(go, dict(NI, **{f"isinstance({ci}, Term)": False, f"{ci} in self.term_slices": False, f"{ci} in self.column_indices": True}), kinds=("return", "raise"))
+    none = sym.eval_under(go, dict(NI, **{f"isinstance({ci}, Term)": False, f"{ci} in self.term_slices": False, f"{ci} in self.column_indices": False}), kinds=("return", "raise"))
+
+    def only(res, pat):
+        return len(res) == 1 and res[0][0] == "return" and sym.pm(pat, res[0][1]) is not None
+
+    ok = only(as_int, f"slice({ci}, {ci} + 1)") and only(as_term, f"self.term_slices[{ci}]") and only(as_tname, f"self.term_slices[{ci}]") \
+        and only(as_col, f"slice(self.column_indices[{ci}], self.column_indices[{ci}] + 1)") \
+        and bool(term_missing) and all(k == "raise" for k, _v, _e in term_missing) and bool(none) and all(k == "raise" for k, _v, _e in none)
     ctx.check(ok, "C10.R1", "get_slice: int → [i, i+1); term → its slice; column name → [idx, idx+1)", gs.where, ctx.construct(gs, text="get_slice"),
-              "get_slice dispatch changed")
+              f"get_slice dispatch: int {[norm(v) for _k, v, _e in as_int]}, term {[norm(v) for _k, v, _e in as_term]}, term name {[norm(v) for _k, v, _e in as_tname]}, "
+              f"column {[norm(v)[:80] for _k, v, _e in as_col]}")
     gti = P.method(MS, "get_term_indices", inherited=False)
-    ok = "return [idx for term in terms for idx in self.term_indices[term]]" in norm(gti.node)
+    c = None
+    try:
+        rr = [o for o in sym.outcomes(gti.node) if o.kind == "return"]
+        c = rr[0].value if len(rr) == 1 else None
+    except sym.Unmodelled:
+        pass
+    tp = param_names(gti.node)[1]
+    ok = sym.pm_any([f"[VAR_i for VAR_t in [*self.__get_restricted_formula({tp}, **formula_kwargs)] for VAR_i in self.term_indices[VAR_t]]",
+                     f"[VAR_i for VAR_t in list(self.__get_restricted_formula({tp}, **formula_kwargs)) for VAR_i in self.term_indices[VAR_t]]",
+                     f"[VAR_i for VAR_t in self.__get_restricted_formula({tp}, **formula_kwargs) for VAR_i in self.term_indices[VAR_t]]"], c) is not None
     ctx.check(ok, "C10.R1", "get_term_indices concatenates term_indices in the order of the requested terms", gti.where, ctx.construct(gti, text="get_term_indices"),
-              "get_term_indices changed shape")
+              f"returns `{norm(c)[:140] if c is not None else None}`")
 
 
 def r2(ctx, rule="C10.R2"):
@@ -87,8 +119,8 @@ def r2(ctx, rule="C10.R2"):
         eq, hs = C.methods.get("__eq__"), C.methods.get("__hash__")
         if eq is None:
             continue
-        branches = [b for b in ast.walk(eq.node) if isinstance(b, ast.If) and norm(b.test) == "isinstance(other, str)"]
-        if not branches:
+        ot = (param_names(eq.node) + ["other", "other"])[1]
+        if not any(isinstance(c, ast.Call) and norm(c) == f"isinstance({ot}, str)" for c in ast.walk(eq.node)):
             continue
         n += 1
         ctx.look()
@@ -97,14 +129,22 @@ def r2(ctx, rule="C10.R2"):
         if hs is None:
             ctx.fail(rule, inst, eq.where, ctx.construct(C.qualname, text="eq(str) without hash"), "__eq__ accepts str but no __hash__ is defined")
             continue
-        r = [s for s in branches[0].body if isinstance(s, ast.Return)]
-        cmp_ = r[0].value if r else None
+        try:
+            eo = sym.outcomes(eq.node)
+        except sym.Unmodelled:
+            eo = []
+        facts = {f"isinstance({ot}, str)": True}
+        for c in ast.walk(eq.node):  # the same-type branch, if any, is not the one taken for a str
+            if isinstance(c, ast.Call) and dotted(c.func) == "isinstance" and len(c.args) == 2 and norm(c.args[0]) == ot and norm(c.args[1]) != "str":
+                facts[norm(c)] = False
+        sr = sym.eval_under(eo, facts, kinds=("return",))
+        cmp_ = sr[0][1] if len(sr) == 1 else None
         simple = None
         if isinstance(cmp_, ast.Compare) and len(cmp_.ops) == 1 and isinstance(cmp_.ops[0], ast.Eq):
             l, rr = cmp_.left, cmp_.comparators[0]
-            if isinstance(rr, ast.Name) and rr.id == "other" and isinstance(l, ast.Attribute) and dotted(l.value) == "self":
+            if isinstance(rr, ast.Name) and rr.id == ot and isinstance(l, ast.Attribute) and dotted(l.value) == "self":
                 simple = l.attr
-            elif isinstance(l, ast.Name) and l.id == "other" and isinstance(rr, ast.Attribute) and dotted(rr.value) == "self":
+            elif isinstance(l, ast.Name) and l.id == ot and isinstance(rr, ast.Attribute) and dotted(rr.value) == "self":
                 simple = rr.attr
         hr = returns_of(hs.node)
         ht = norm(hr[0].value) if hr else ""
@@ -114,7 +154,7 @@ def r2(ctx, rule="C10.R2"):
                       f"{short} == str compares `self.{simple}` with the string, but __hash__ returns `{ht}`: an equal string hashes differently")
         else:
             normal = [c for c in ast.walk(cmp_) if isinstance(c, ast.Call) and dotted(c.func) in ("sorted", "set", "frozenset")
-                      and any(isinstance(x, ast.Name) and x.id == "other" for x in ast.walk(c))] if cmp_ is not None else []
+                      and any(isinstance(x, ast.Name) and x.id == ot for x in ast.walk(c))] if cmp_ is not None else []
             rp = C.methods.get("__repr__")
             ctx.fail(rule, inst, eq.where, ctx.construct(C.qualname, text="cross-type eq/hash"),
                      f"{short}.__eq__(str) normalises the string operand (`{norm(normal[0])[:70] if normal else norm(cmp_)[:70] if cmp_ is not None else '?'}`) "
@@ -125,46 +165,74 @@ def r2(ctx, rule="C10.R2"):
 
 def r3(ctx):
     P = ctx.project
-    ctx.look(3)
-    vi = _prop(P, "variable_indices")
-    r = returns_of(vi.node)
-    t = norm(r[0].value) if r else ""
-    ok = re.fullmatch(r"\{(\w+): sorted\(\{(\w+) for (\w+) in (\w+) for \2 in self\.term_indices\[\3\]\}\) for \(?\1, \4\)? in self\.variable_terms\.items\(\)\}", t) is not None
-    ctx.check(ok, "C10.R3", "variable_indices is the sorted union of term_indices over the variable's terms", vi.where, ctx.construct(vi, text="variable_indices"), f"returns `{t}`")
-    vt = _prop(P, "variable_terms")
-    t = norm(vt.node)
-    ok = "for (term, variables) in self.term_variables.items():" in t.replace("for term, variables in", "for (term, variables) in") and "variable_terms[variable].add(term)" in t
-    ctx.check(ok, "C10.R3", "variable_terms inverts term_variables", vt.where, ctx.construct(vt, text="variable_terms"), "inversion loop changed")
-    tv = _prop(P, "term_variables")
-    t = norm(tv.node)
-    ok = "for row in self.__structure:" in t and "term_variables[row[0]] = Variable.union(*(term.variables for term in row[1]))" in t
-    ctx.check(ok, "C10.R3", "term_variables reads the scoped terms of the same structure row", tv.where, ctx.construct(tv, text="term_variables"), "row pairing changed")
+    _skel(ctx, "C10.R3", _prop(P, "variable_indices"), "variable_indices is the sorted union of term_indices over the variable's terms", "variable_indices",
+          ["""
+        def variable_indices(self):
+            return {variable: sorted({index for term in terms for index in self.term_indices[term]}) for variable, terms in self.variable_terms.items()}
+    """, """
+        def variable_indices(self):
+            variable_indices = {}
+            for variable, terms in self.variable_terms.items():
+                indices = set()
+                for term in terms:
+                    indices.update(self.term_indices[term])
+                variable_indices[variable] = sorted(indices)
+            return variable_indices
+    """])
+    _skel(ctx, "C10.R3", _prop(P, "variable_terms"), "variable_terms inverts term_variables", "variable_terms", """
+        def variable_terms(self):
+            for term, variables in self.term_variables.items():
+                for variable in variables:
+                    variable_terms[variable].add(term)
+            ...
+    """)
+    _skel(ctx, "C10.R3", _prop(P, "term_variables"), "term_variables reads the scoped terms of the same structure row", "term_variables",
+          [f"""
+        def term_variables(self):
+            term_variables = {{}}
+            for row in self.__structure:
+                term_variables[{t}] = Variable.union(*(term.variables for term in {s_}))
+            return term_variables
+    """ for t in ("row[0]", "row.term") for s_ in ("row[1]", "row.scoped_terms")])
     from .c17 import alias_round_trip, variable_traversal
     alias_round_trip(ctx, "C10.R3")
     variable_traversal(ctx, "C10.R3")
     rv = P.method(MS, "required_variables", inherited=False)
-    t = norm(rv.node)
-    ok = "return self.variables_by_source.get('data', set())" in t and "if self.structure is None:" in t
+    try:
+        ro = sym.outcomes(rv.node)
+    except sym.Unmodelled:
+        ro = []
+    mat = sym.eval_under(ro, {"self.structure is None": False}, kinds=("return",))
+    ok = len(mat) == 1 and sym.pm_any(["self.variables_by_source.get('data', set())"], mat[0][1]) is not None
     ctx.check(ok, "C10.R3", "after materialisation the required variables are those sourced from the data layer", rv.where, ctx.construct(rv, text="required_variables"),
-              "required_variables changed shape")
+              f"with a recorded structure required_variables returns {[norm(v) for _k, v, _e in mat]}")
 
 
 def r4(ctx):
     P = ctx.project
     sb = P.method(MS, "subset", inherited=False)
-    t = norm(sb.node)
-    ctx.look(2)
-    ok = "term_structure = {s.term: s for s in self.__structure if s.term in terms_set}" in t and \
-        "return self.update(formula=formula, structure=[term_structure[term] for term in terms])" in t and "terms: list[Term] = list(formula)" in t
-    ctx.check(ok, "C10.R4", "subset selects the parent's structure rows by term and emits them in the restricting formula's order", sb.where,
-              ctx.construct(sb, text="subset"), "subset changed shape")
+    tp = param_names(sb.node)[1]
+    _skel(ctx, "C10.R4", sb, "subset selects the parent's structure rows by term and emits them in the restricting formula's order", "subset", f"""
+        def subset(self, {tp}, **formula_kwargs):
+            formula = self.__get_restricted_formula({tp}, **formula_kwargs)
+            terms = list(formula)
+            terms_set = set(terms)
+            term_structure = {{s.term: s for s in self.__structure if s.term in terms_set}}
+            return self.update(formula=formula, structure=[term_structure[term] for term in terms])
+    """)
     rf = [f for q, f in P.functions.items() if q.startswith(MS + ".") and q.endswith("__get_restricted_formula")]
     if not rf:
         raise AnalysisError("C10.R4: __get_restricted_formula vanished")
-    t = norm(rf[0].node)
-    ok = "missing_terms: set[Term] = set(formula).difference(self.terms)" in t and "if missing_terms:" in t and "raise ValueError" in t
-    ctx.check(ok, "C10.R4", "a restriction naming terms the parent does not have is rejected", rf[0].where, ctx.construct(rf[0], text="restrict"),
-              "the missing-terms check changed")
+    sp = param_names(rf[0].node)[1]
+    _skel(ctx, "C10.R4", rf[0], "a restriction naming terms the parent does not have is rejected", "restrict", f"""
+        def __get_restricted_formula(self, {sp}, **formula_kwargs):
+            formula = SimpleFormula.from_spec({sp}, **formula_kwargs)
+            ...
+            missing_terms = set(formula).difference(self.terms)
+            if missing_terms:
+                raise ValueError(f"{{missing_terms}}")
+            return formula
+    """)
 
 
 
